@@ -44,6 +44,10 @@ func runSolver(ctx context.Context, s solverSpec, file string, timeoutS int) sol
 	o := out.String()
 	first := strings.TrimSpace(strings.SplitN(o, "\n", 2)[0])
 	st := "unknown"
+	if strings.HasPrefix(first, "(error") && !strings.Contains(first, "model is not available") {
+		// malformed script: an engine bug, never to be mistaken for an undischarged obligation
+		return solveResult{status: "error", solver: s.name, out: o, secs: secs}
+	}
 	switch first {
 	case "unsat":
 		st = "unsat"
@@ -75,6 +79,10 @@ func solve(dir string, ob *Obligation, idx int, timeoutS int, second bool) {
 		return []string{"z3-new", fmt.Sprintf("-T:%d", t), "smt.auto_config=false", "smt.mbqi=false", f}
 	}}, file, timeoutS)
 	total := r.secs
+	if r.status == "error" {
+		ob.Status, ob.Solver, ob.Time, ob.Output = "error", r.solver, r.secs, r.out
+		return
+	}
 	if r.status != "unsat" {
 		r0 := r
 		r = runSolver(ctx, solvers[0], file, timeoutS)
